@@ -228,6 +228,8 @@ CHECKS['C04'].extra = c04_safe_ops
 CHECKS['C18'].extra = c18_extra
 for pid in ('C01', 'C04', 'C05', 'C06', 'C11', 'C12'):
     CHECKS[pid].propfiles = [f'Props/{pid}.v', 'Props/KTie.v']    # K-tie: kernels translated from the source on every run
+for pid in ('C01', 'C05', 'C06'):
+    CHECKS[pid].propfiles = [f'Props/{pid}.v', 'Props/KTie.v', 'Props/DTie.v']   # D-tie: data-touching functions translated from the source on every run
 for pid in ('C01', 'C04', 'C05', 'C06', 'C11', 'C12', 'C18'):
     CHECKS[pid].with_async = True   # the async wrappers / AsyncDetached run (and partly re-implement: go_back, advance, sync_index) the same core
 
@@ -407,6 +409,8 @@ def c09_zst(ctx, seqrun, stats, divs):
 
 CHECKS['C08'] = LedgerCheck('C08', is_ledger, LEDGER_TEXT)
 CHECKS['C09'] = LedgerCheck('C09', is_ledger, LEDGER_TEXT + ' Zero-sized item types (no bytes: outside the Model): exact drop ledger on rule-following histories (zstprobe).', extra=c09_zst)
+for pid in ('C08', 'C09'):
+    CHECKS[pid].propfiles = [f'Props/{pid}.v', 'Props/DTie.v']   # D-tie: the ledger events of every store / take / clone in the translated source = the Model's
 
 
 # ------------------------------------------------------------------------------------------- async: C14, C15
